@@ -161,6 +161,10 @@ def run_tlc(module, cfg, env_extra=None, workers=None, timeout=600, simulate=Non
             if m:
                 res.violated.append(m.group(1))
                 in_trace = True
+            m = re.match(r"Error: Temporal property (\S+) was violated", line)
+            if m:
+                res.violated.append(m.group(1))
+                in_trace = True
             if "Temporal properties were violated" in line:
                 res.violated.append("<temporal>")
                 in_trace = True
